@@ -72,6 +72,10 @@ impl SecondaryTransaction {
     ) -> StorageResult<Self> {
         // An update txn takes the table's deletion lock *before* pinning: its snapshot is then
         // the one no compaction of this table can change until the txn ends.
+        #[cfg(risinglight_verif)]
+        if update {
+            crate::verif::point("txn.lock.begin", &table.table_id().to_string()).await;
+        }
         let delete_lock = if update {
             Some(table.lock_for_deletion().await)
         } else {
@@ -79,7 +83,7 @@ impl SecondaryTransaction {
         };
         // pin a snapshot at version manager
         let pin_version = table.version.pin();
-        // after the pin, before (for update txns) awaiting the table lock
+        // after the pin (update txns hold the table lock by now)
         #[cfg(risinglight_verif)]
         crate::verif::point(
             "txn.pinned",
